@@ -119,6 +119,9 @@ def run(ctx):
     # ---- C09.3 buffered bodies are read completely before the Request is built
     import rules_C03
     rules_C03.preread_rules(ctx, "C09.3")
+    # ---- C09.9 the framed body readers reach the connection through their bounded `read` alone (rule of C03.2: an override of another method
+    # of the Read trait is a second road to the shared reader, with its own chance to take the next message's bytes)
+    rules_C03.read_overrides_rule(ctx, "C09.9")
 
     # ---- C09.4 reader hand-off
     import turn_rules as T, absint
